@@ -150,6 +150,21 @@ class MArrayRef(MVal):
     def __repr__(self):
         return "slot%d" % self.slot
 
+    _INT = {3: "<B", 8: "<b", 9: "<B", 10: "<h", 11: "<H", 12: "<i", 13: "<I", 14: "<q", 15: "<Q"}
+
+    def scalar(self):
+        """the integer held by a 1x1 integer/logical array (whatever its class), else None"""
+        f = self.desc.split()
+        try:
+            cls, m, n = int(f[1]), int(f[2]), int(f[3])
+            raw = bytes.fromhex(f[4]) if f[4] != "-" else b""
+        except (ValueError, IndexError):
+            return None
+        fmt = self._INT.get(cls)
+        if fmt is None or (m, n) != (1, 1) or len(raw) < struct.calcsize(fmt):
+            return None
+        return struct.unpack(fmt, raw[:struct.calcsize(fmt)])[0]
+
 
 class MObject(MVal):
     kind = "object"
